@@ -11,7 +11,7 @@ MODULES = ['Pysmi.Props.C04']
 LAKE_TARGETS = ['Pysmi.Props.C04']
 THEOREMS = ['Pysmi.Pysnmp.C04_sort_perm', 'Pysmi.Pysnmp.C04_sort_stable', 'Pysmi.Pysnmp.C04_sort_sorted', 'Pysmi.Pysnmp.C04_types_keep_dependency_order',
             'Pysmi.Pysnmp.C04_imports_expand', 'Pysmi.Generated.Pysnmp.C04_exported_classes', 'Pysmi.Generated.Pysnmp.C04_export_filter_complete',
-            'Pysmi.Generated.Pysnmp.pin_smiObjects']
+            'Pysmi.Generated.Pysnmp.pin_smiObjects', 'Pysmi.Generated.Text.C04_setter_keys', 'Pysmi.Generated.Text.C04_status_written']
 TECHNIQUE = ('Lean 4 theorems about a model of the pure steps of PySnmpCodeGen.genCode (SMI_OBJECTS expansion of imports, dotted OID -> '
              'tuple, stable sort by OID: permutation, sortedness, stability, round trip) and kernel-decided facts about the exported-class '
              'tuple extracted from the template on every run; the emitted Python itself is validated by execution: every generated module is '
@@ -20,7 +20,8 @@ TECHNIQUE = ('Lean 4 theorems about a model of the pure steps of PySnmpCodeGen.g
 LEVEL_TEXT = ('Proved in Lean: sorting the records by OID is a stable permutation (nothing lost or duplicated; records without OID keep '
               'their dependency order, so a derived type never precedes its base), the dotted-string -> tuple conversion loses nothing, the '
               'import expansion keeps every imported symbol; decided on the regenerated template: every record class the property names is '
-              'in the export filter. NOT expressible as a theorem short of formalising Python and Jinja: that the rendered text is valid '
+              'in the export filter, and every set...() call of the template is given the record key of that meaning (status, maxaccess, units, '
+              'objects, indices ...; C04_setter_keys), every block whose records carry a status / access writes it. NOT expressible as a theorem short of formalising Python and Jinja: that the rendered text is valid '
               'Python and what executing it defines (partial, runtime) - decided by executing every generated module.')
 LEVEL_NOTE = 'Trusted: Lean kernel + standard axioms; translate.py (regular expressions over the template); recording builder; CPython.'
 ASSUMPTIONS = ['the recording builder fabricates imported classes: class hierarchies of pysnmp itself (e.g. metaclass conflicts) are not exercised',
@@ -101,7 +102,7 @@ def expected_spec(cons):
 def check_set(ctx, obs):
     res = ctx.res
     g = obs['gen']
-    inp = {'seed': obs['seed'], 'texts': obs['texts']}
+    inp = {'seed': obs['seed'], 'texts': obs['texts'], 'run_set': obs.get('run_set')}
 
     def fail(key, what):
         res.oracle_failures.append({'key': key, 'what': what, 'input': inp})
@@ -367,6 +368,8 @@ def search(ctx):
 def replay(payload):
     inp = payload['input']
     key = payload.get('key', '')
+    if inp.get('run_set'):
+        return cg.replay_regenerated('C04', inp, check_set, payload.get('key'))
     texts = inp['texts']
     st, out, comp = pipeline.compile_set(texts, backend='pysnmp', genTexts=True)
     bad = []
